@@ -1,6 +1,7 @@
 package c09
 
-// Code generated by the snippet in the builder notes (one native fuzz target + thorough-tier wrapper per C09 target). DO NOT EDIT by hand: keep in sync with register() calls.
+// One native fuzz target per C09 target (keep in sync with the register() calls; TestReplaySanity checks the map).
+// The driver runs every Fuzz* function: its seed corpus as a plain test in both tiers, `-test.fuzz` in the thorough tier.
 
 import "testing"
 
@@ -37,101 +38,38 @@ var fuzzTargets = map[string]string{
 	"FuzzNatSipAlg":             "nat-sip-alg",
 	"FuzzZtpParseVendorOptions": "ztp.parseVendorOptions",
 	"FuzzZtpExtractNexusURL":    "ztp.extractNexusURL",
+	"FuzzRadiusParseAttributes": "radius.parseAttributes",
 }
 
 func FuzzPppoeParsePPPoEHeader(f *testing.F) { fuzzTarget(f, "pppoe.ParsePPPoEHeader") }
-func TestPropFuzzPppoeParsePPPoEHeader(t *testing.T) {
-	nativeFuzz(t, "FuzzPppoeParsePPPoEHeader", "pppoe.ParsePPPoEHeader")
-}
-func FuzzPppoeParseTags(f *testing.F)         { fuzzTarget(f, "pppoe.ParseTags") }
-func TestPropFuzzPppoeParseTags(t *testing.T) { nativeFuzz(t, "FuzzPppoeParseTags", "pppoe.ParseTags") }
-func FuzzPppoeParseLCPPacket(f *testing.F)    { fuzzTarget(f, "pppoe.ParseLCPPacket") }
-func TestPropFuzzPppoeParseLCPPacket(t *testing.T) {
-	nativeFuzz(t, "FuzzPppoeParseLCPPacket", "pppoe.ParseLCPPacket")
-}
-func FuzzPppoeParseLCPOptions(f *testing.F) { fuzzTarget(f, "pppoe.ParseLCPOptions") }
-func TestPropFuzzPppoeParseLCPOptions(t *testing.T) {
-	nativeFuzz(t, "FuzzPppoeParseLCPOptions", "pppoe.ParseLCPOptions")
-}
-func FuzzPppoeParsePADT(f *testing.F)         { fuzzTarget(f, "pppoe.ParsePADT") }
-func TestPropFuzzPppoeParsePADT(t *testing.T) { nativeFuzz(t, "FuzzPppoeParsePADT", "pppoe.ParsePADT") }
-func FuzzPppoeParseEchoPacket(f *testing.F)   { fuzzTarget(f, "pppoe.ParseEchoPacket") }
-func TestPropFuzzPppoeParseEchoPacket(t *testing.T) {
-	nativeFuzz(t, "FuzzPppoeParseEchoPacket", "pppoe.ParseEchoPacket")
-}
-func FuzzPppoeDiscovery(f *testing.F)         { fuzzTarget(f, "pppoe-discovery") }
-func TestPropFuzzPppoeDiscovery(t *testing.T) { nativeFuzz(t, "FuzzPppoeDiscovery", "pppoe-discovery") }
-func FuzzPppoeSession(f *testing.F)           { fuzzTarget(f, "pppoe-session") }
-func TestPropFuzzPppoeSession(t *testing.T)   { nativeFuzz(t, "FuzzPppoeSession", "pppoe-session") }
-func FuzzLcpFsm(f *testing.F)                 { fuzzTarget(f, "lcp-fsm") }
-func TestPropFuzzLcpFsm(t *testing.T)         { nativeFuzz(t, "FuzzLcpFsm", "lcp-fsm") }
-func FuzzIpcpFsm(f *testing.F)                { fuzzTarget(f, "ipcp-fsm") }
-func TestPropFuzzIpcpFsm(t *testing.T)        { nativeFuzz(t, "FuzzIpcpFsm", "ipcp-fsm") }
-func FuzzIpv6cpFsm(f *testing.F)              { fuzzTarget(f, "ipv6cp-fsm") }
-func TestPropFuzzIpv6cpFsm(t *testing.T)      { nativeFuzz(t, "FuzzIpv6cpFsm", "ipv6cp-fsm") }
-func FuzzAuthPap(f *testing.F)                { fuzzTarget(f, "auth-pap") }
-func TestPropFuzzAuthPap(t *testing.T)        { nativeFuzz(t, "FuzzAuthPap", "auth-pap") }
-func FuzzAuthChap(f *testing.F)               { fuzzTarget(f, "auth-chap") }
-func TestPropFuzzAuthChap(t *testing.T)       { nativeFuzz(t, "FuzzAuthChap", "auth-chap") }
-func FuzzDhcp4Handler(f *testing.F)           { fuzzTarget(f, "dhcp4-handler") }
-func TestPropFuzzDhcp4Handler(t *testing.T)   { nativeFuzz(t, "FuzzDhcp4Handler", "dhcp4-handler") }
-func FuzzDhcp4Opt82(f *testing.F)             { fuzzTarget(f, "dhcp4-opt82") }
-func TestPropFuzzDhcp4Opt82(t *testing.T)     { nativeFuzz(t, "FuzzDhcp4Opt82", "dhcp4-opt82") }
-func FuzzDhcpv6ParseMessage(f *testing.F)     { fuzzTarget(f, "dhcpv6.ParseMessage") }
-func TestPropFuzzDhcpv6ParseMessage(t *testing.T) {
-	nativeFuzz(t, "FuzzDhcpv6ParseMessage", "dhcpv6.ParseMessage")
-}
-func FuzzDhcpv6ParseOptions(f *testing.F) { fuzzTarget(f, "dhcpv6.ParseOptions") }
-func TestPropFuzzDhcpv6ParseOptions(t *testing.T) {
-	nativeFuzz(t, "FuzzDhcpv6ParseOptions", "dhcpv6.ParseOptions")
-}
-func FuzzDhcpv6ParseIANA(f *testing.F) { fuzzTarget(f, "dhcpv6.ParseIANA") }
-func TestPropFuzzDhcpv6ParseIANA(t *testing.T) {
-	nativeFuzz(t, "FuzzDhcpv6ParseIANA", "dhcpv6.ParseIANA")
-}
-func FuzzDhcpv6ParseIAPD(f *testing.F) { fuzzTarget(f, "dhcpv6.ParseIAPD") }
-func TestPropFuzzDhcpv6ParseIAPD(t *testing.T) {
-	nativeFuzz(t, "FuzzDhcpv6ParseIAPD", "dhcpv6.ParseIAPD")
-}
-func FuzzDhcpv6ParseIAAddress(f *testing.F) { fuzzTarget(f, "dhcpv6.ParseIAAddress") }
-func TestPropFuzzDhcpv6ParseIAAddress(t *testing.T) {
-	nativeFuzz(t, "FuzzDhcpv6ParseIAAddress", "dhcpv6.ParseIAAddress")
-}
-func FuzzDhcpv6ParseIAPrefix(f *testing.F) { fuzzTarget(f, "dhcpv6.ParseIAPrefix") }
-func TestPropFuzzDhcpv6ParseIAPrefix(t *testing.T) {
-	nativeFuzz(t, "FuzzDhcpv6ParseIAPrefix", "dhcpv6.ParseIAPrefix")
-}
-func FuzzDhcpv6ParseDUID(f *testing.F) { fuzzTarget(f, "dhcpv6.ParseDUID") }
-func TestPropFuzzDhcpv6ParseDUID(t *testing.T) {
-	nativeFuzz(t, "FuzzDhcpv6ParseDUID", "dhcpv6.ParseDUID")
-}
-func FuzzDhcp6Handler(f *testing.F)         { fuzzTarget(f, "dhcp6-handler") }
-func TestPropFuzzDhcp6Handler(t *testing.T) { nativeFuzz(t, "FuzzDhcp6Handler", "dhcp6-handler") }
-func FuzzRadiusCoa(f *testing.F)            { fuzzTarget(f, "radius-coa") }
-func TestPropFuzzRadiusCoa(t *testing.T)    { nativeFuzz(t, "FuzzRadiusCoa", "radius-coa") }
-func FuzzRadiusClientParse(f *testing.F)    { fuzzTarget(f, "radius-client-parse") }
-func TestPropFuzzRadiusClientParse(t *testing.T) {
-	nativeFuzz(t, "FuzzRadiusClientParse", "radius-client-parse")
-}
-func FuzzHaDecodeSyncMessage(f *testing.F) { fuzzTarget(f, "ha.DecodeSyncMessage") }
-func TestPropFuzzHaDecodeSyncMessage(t *testing.T) {
-	nativeFuzz(t, "FuzzHaDecodeSyncMessage", "ha.DecodeSyncMessage")
-}
+func FuzzPppoeParseTags(f *testing.F)        { fuzzTarget(f, "pppoe.ParseTags") }
+func FuzzPppoeParseLCPPacket(f *testing.F)   { fuzzTarget(f, "pppoe.ParseLCPPacket") }
+func FuzzPppoeParseLCPOptions(f *testing.F)  { fuzzTarget(f, "pppoe.ParseLCPOptions") }
+func FuzzPppoeParsePADT(f *testing.F)        { fuzzTarget(f, "pppoe.ParsePADT") }
+func FuzzPppoeParseEchoPacket(f *testing.F)  { fuzzTarget(f, "pppoe.ParseEchoPacket") }
+func FuzzPppoeDiscovery(f *testing.F)        { fuzzTarget(f, "pppoe-discovery") }
+func FuzzPppoeSession(f *testing.F)          { fuzzTarget(f, "pppoe-session") }
+func FuzzLcpFsm(f *testing.F)                { fuzzTarget(f, "lcp-fsm") }
+func FuzzIpcpFsm(f *testing.F)               { fuzzTarget(f, "ipcp-fsm") }
+func FuzzIpv6cpFsm(f *testing.F)             { fuzzTarget(f, "ipv6cp-fsm") }
+func FuzzAuthPap(f *testing.F)               { fuzzTarget(f, "auth-pap") }
+func FuzzAuthChap(f *testing.F)              { fuzzTarget(f, "auth-chap") }
+func FuzzDhcp4Handler(f *testing.F)          { fuzzTarget(f, "dhcp4-handler") }
+func FuzzDhcp4Opt82(f *testing.F)            { fuzzTarget(f, "dhcp4-opt82") }
+func FuzzDhcpv6ParseMessage(f *testing.F)    { fuzzTarget(f, "dhcpv6.ParseMessage") }
+func FuzzDhcpv6ParseOptions(f *testing.F)    { fuzzTarget(f, "dhcpv6.ParseOptions") }
+func FuzzDhcpv6ParseIANA(f *testing.F)       { fuzzTarget(f, "dhcpv6.ParseIANA") }
+func FuzzDhcpv6ParseIAPD(f *testing.F)       { fuzzTarget(f, "dhcpv6.ParseIAPD") }
+func FuzzDhcpv6ParseIAAddress(f *testing.F)  { fuzzTarget(f, "dhcpv6.ParseIAAddress") }
+func FuzzDhcpv6ParseIAPrefix(f *testing.F)   { fuzzTarget(f, "dhcpv6.ParseIAPrefix") }
+func FuzzDhcpv6ParseDUID(f *testing.F)       { fuzzTarget(f, "dhcpv6.ParseDUID") }
+func FuzzDhcp6Handler(f *testing.F)          { fuzzTarget(f, "dhcp6-handler") }
+func FuzzRadiusCoa(f *testing.F)             { fuzzTarget(f, "radius-coa") }
+func FuzzRadiusClientParse(f *testing.F)     { fuzzTarget(f, "radius-client-parse") }
+func FuzzHaDecodeSyncMessage(f *testing.F)   { fuzzTarget(f, "ha.DecodeSyncMessage") }
 func FuzzHaSse(f *testing.F)                 { fuzzTarget(f, "ha-sse") }
-func TestPropFuzzHaSse(t *testing.T)         { nativeFuzz(t, "FuzzHaSse", "ha-sse") }
 func FuzzNatFtpAlg(f *testing.F)             { fuzzTarget(f, "nat-ftp-alg") }
-func TestPropFuzzNatFtpAlg(t *testing.T)     { nativeFuzz(t, "FuzzNatFtpAlg", "nat-ftp-alg") }
 func FuzzNatSipAlg(f *testing.F)             { fuzzTarget(f, "nat-sip-alg") }
-func TestPropFuzzNatSipAlg(t *testing.T)     { nativeFuzz(t, "FuzzNatSipAlg", "nat-sip-alg") }
 func FuzzZtpParseVendorOptions(f *testing.F) { fuzzTarget(f, "ztp.parseVendorOptions") }
-func TestPropFuzzZtpParseVendorOptions(t *testing.T) {
-	nativeFuzz(t, "FuzzZtpParseVendorOptions", "ztp.parseVendorOptions")
-}
-func FuzzZtpExtractNexusURL(f *testing.F) { fuzzTarget(f, "ztp.extractNexusURL") }
-func TestPropFuzzZtpExtractNexusURL(t *testing.T) {
-	nativeFuzz(t, "FuzzZtpExtractNexusURL", "ztp.extractNexusURL")
-}
+func FuzzZtpExtractNexusURL(f *testing.F)    { fuzzTarget(f, "ztp.extractNexusURL") }
 func FuzzRadiusParseAttributes(f *testing.F) { fuzzTarget(f, "radius.parseAttributes") }
-func TestPropFuzzRadiusParseAttributes(t *testing.T) {
-	nativeFuzz(t, "FuzzRadiusParseAttributes", "radius.parseAttributes")
-}
